@@ -19,9 +19,11 @@ VARIABLE c
 Unknown == {"x_unknown", "zz_other"}
 
 \* ------------------------------------------------------------- payloads
-\* "e" empty | "s" short (>= 3 bytes) | "l" 300 bytes (does not fit one cell); image_data and the unknown attributes are binary
+\* "e" empty | "s" short (>= 3 bytes) | "l" 300 bytes (does not fit one cell) | "b" 126 bytes (fills one cell after the tag
+\* byte exactly) | "c" 127 bytes (one byte more); image_data and the unknown attributes are binary
 Payload(a, sz) ==
   IF sz = "e" THEN <<>>
+  ELSE IF sz \in {"b", "c"} THEN [i \in 1..(IF sz = "b" THEN 126 ELSE 127) |-> 48 + ((i + Len(a)) % 75)]
   ELSE IF sz = "s" THEN (IF a = "image_data" THEN <<137, 80, 0, 255, Len(a)>> ELSE StrToCodes(a) \o <<58, 49>>)
   ELSE IF a = "image_data" \/ a \in Unknown THEN [i \in 1..300 |-> (i * 7 + Len(a)) % 256]
   ELSE [i \in 1..300 |-> 33 + ((i * 7 + Len(a)) % 90)]
@@ -206,6 +208,8 @@ OnCases ==
       (x[2] = "on" /\ x[3] = 1) => (x[4] = "s1" /\ x[5] = 1)}            \* the empty dictionary has no values and no labels
   \cup {<<"on", lay, ks, f, lfi, "l">> : lay \in {"on", "semi"}, ks \in (IF Quick THEN {2, 6} ELSE 2..Len(KeySets)), f \in LongForms,
                                          lfi \in (IF Quick THEN {3} ELSE 1..Len(LabelForms))}
+  \cup {<<"on", lay, 2, "s1", 1, "b">> : lay \in {"on", "semi"}}
+  \cup {<<"on", lay, 2, f, 1, sz>> : lay \in {"on", "semi"}, f \in LongForms, sz \in {"b", "c"}}
   \cup {<<"on", lay, ks, f, lfi, "e">> : lay \in {"on", "semi"}, ks \in {2, 3, 4}, f \in EmptyForms, lfi \in (IF Quick THEN {2} ELSE 1..Len(LabelForms))}
 OffCases ==
   {<<"off", f, "s">> : f \in SnakeForms} \cup {<<"off", f, "l">> : f \in {"fill", "fillodd"}} \cup {<<"off", "s1", "e">>, <<"off", "set", "e">>}
